@@ -2,7 +2,7 @@
     list-encoded operands.  Evaluated inside Coq (vm_compute) and, for volume,
     through extraction (Extract.v). *)
 From Coq Require Import ZArith List.
-From FastorV Require Import Base.Scalar Model.Cfg Model.Matmul.
+From FastorV Require Import Base.Scalar Model.Cfg Model.Matmul Model.TMatmul.
 Import ListNotations.
 
 Definition run_matmul_Z (c : cfg) (t : ety) (M K N : nat) (a b : list Z) : list Z :=
@@ -11,3 +11,8 @@ Definition run_matmul_C (c : cfg) (t : ety) (M K N : nat) (a b : list (Z*Z)) : l
   map (matmul (S:=ZC) c t M K N (fun i => nth i a (0,0)%Z) (fun i => nth i b (0,0)%Z) (fun _ => (77777,0)%Z)) (seq 0 (M*N + 2)).
 Definition run_best_vsize (c : cfg) : list (list nat) :=
   map (fun t => map (fun n => best_vsize c t (S n)) (seq 0 80)) [ty_double; ty_float; ty_int32; ty_int64].
+
+Definition run_tmatmul_Z (c : cfg) (t : ety) (tl tr M K N : nat) (a b : list Z) : list Z :=
+  map (tmatmul (S:=ZS) c t tl tr M K N (fun i => nth i a 0%Z) (fun i => nth i b 0%Z) (fun _ => 77777%Z)) (seq 0 (M*N + 2)).
+Definition run_tmatmul_C (c : cfg) (t : ety) (tl tr M K N : nat) (a b : list (Z*Z)) : list (Z*Z) :=
+  map (tmatmul (S:=ZC) c t tl tr M K N (fun i => nth i a (0,0)%Z) (fun i => nth i b (0,0)%Z) (fun _ => (77777,0)%Z)) (seq 0 (M*N + 2)).
